@@ -94,6 +94,17 @@ func isCircleObj(o geojson.Object) bool {
 	return ok
 }
 
+// findingSparseStop (fixed aa6f73e): the sparse callbacks of Within/Intersects
+// returned ok=false for a candidate that failed the exact test, which ended the
+// whole sparse search: SPARSE returned nothing (or too little) as soon as the
+// first index candidate was a near miss.
+const findingSparseStop = "sparse-stops-at-first-nonmatch"
+
+// findingClipCircle (fixed 0c54029): clip.Clip had no case for *geojson.Circle,
+// so CIRCLE ... CLIPBY (and GET of a circle object ... CLIPBY) searched the
+// whole disc and returned objects outside the CLIPBY rectangle.
+const findingClipCircle = "clipby-ignored-for-circles"
+
 // findingNonFinite: SET ... OBJECT accepts GeoJSON with null (-> NaN, in Points)
 // or 1e999 (-> +-Inf) coordinates and indexes it; a NaN box corrupts the node
 // rectangles of the R-tree (trees of depth 3, i.e. > ~4000 entries, show it),
@@ -916,6 +927,43 @@ func (m *machine) query(st step) {
 		}
 		gotSet[id] = true
 	}
+	// model-free CLIPBY rule: whatever the clipped area looks like, it lies inside
+	// every CLIPBY rectangle, so no returned object may lie wholly outside one
+	// (INTERSECTS) or reach out of one (WITHIN). Judged on the float64 boxes of
+	// the harness' own copies of the objects, with the 1e-9 degree slack used for
+	// predicate rounding elsewhere.
+	for _, cl := range area.Clip {
+		cro, err := buildRect(cl)
+		if err != nil {
+			break
+		}
+		cr := cro.Rect()
+		for _, id := range got {
+			o := m.live[id]
+			if o == nil || ignore[id] || o.Empty() || nanBox(o) || nonFinite(o) {
+				continue
+			}
+			if isCircleObj(o) || nestedCircle(o) {
+				continue // the box of a stored circle is that of its 64-gon, not the extent of its disc
+			}
+			r := o.Rect()
+			outside := false
+			if st.Pred == "intersects" {
+				outside = !r.IntersectsRect(cr) && boxGap(r, cr) > 1e-9
+			} else {
+				over := math.Max(math.Max(cr.Min.X-r.Min.X, r.Max.X-cr.Max.X), math.Max(cr.Min.Y-r.Min.Y, r.Max.Y-cr.Max.Y))
+				outside = over > 1e-9
+			}
+			if outside {
+				key := "clipby-result-outside-cliprect"
+				if isCircleObj(base) {
+					key = findingClipCircle
+				}
+				c.Fail(m.t, key, fmt.Sprintf("%s %s returned %q whose box %v is not %s the CLIPBY rectangle %v", strings.ToUpper(st.Pred), strings.Join(area.cmdArgs(), " "), id, r,
+					map[string]string{"intersects": "touching", "within": "inside"}[st.Pred], cr), m.hist)
+			}
+		}
+	}
 	var lost, extra []string
 	for id := range want {
 		if !gotSet[id] {
@@ -932,6 +980,11 @@ func (m *machine) query(st step) {
 	desc := func() string {
 		return fmt.Sprintf("%s %s sparse=%d over %d objects (after %d deletes, %d overwrites): index-free evaluation gives %d ids, search gave %d",
 			strings.ToUpper(st.Pred), strings.Join(area.cmdArgs(), " "), st.Sparse, total, m.nDel, m.nMove, len(want), len(got))
+	}
+	// SPARSE samples at least one object per non-empty cell: if anything matches,
+	// the sparse result cannot be empty (ids left out of the comparison count)
+	if st.Sparse > 0 && len(want) > 0 && len(got) == 0 {
+		c.Fail(m.t, findingSparseStop, desc()+"; SPARSE returned nothing although objects match, e.g. "+clipStr(sortedKeys(want), 4), m.hist)
 	}
 	if len(extra) > 0 {
 		key := "extra-result:" + st.Pred
@@ -1241,7 +1294,42 @@ func generate(rt *rapid.T, m *machine, server bool, s sizes) {
 		"query-c":      func(t *rapid.T) { doQuery(t, predOf(t), 0) },
 		"query-d":      func(t *rapid.T) { doQuery(t, predOf(t), 0) },
 		"query-e":      func(t *rapid.T) { doQuery(t, predOf(t), 0) },
-		"query-sparse": func(t *rapid.T) { doQuery(t, predOf(t), rapid.IntRange(1, 4).Draw(t, "sparse")) },
+		"query-sparse": func(t *rapid.T) { doQuery(t, predOf(t), rapid.IntRange(1, 5).Draw(t, "sparse")) },
+		// near misses first: objects in the corners of a circle's bounding box (inside
+		// the box, outside the disc) and a box straddling a corner, then a SPARSE
+		// query with that circle - every index candidate of a corner cell fails the
+		// exact test before one passes
+		"sparse-corners": func(t *rapid.T) {
+			x, y := p.xy(t)
+			if math.Abs(y) > 80 || math.Abs(x) > 170 {
+				t.Skip()
+			}
+			r := math.Min(p.radius(t, x, y), 500000)
+			circ := geojson.NewCircle(geometry.Point{X: x, Y: y}, r, 64)
+			b := circ.Rect()
+			w, h := b.Max.X-b.Min.X, b.Max.Y-b.Min.Y
+			if !(w > 0 && h > 0) {
+				t.Skip()
+			}
+			f := 0.03
+			corners := [][2]float64{{b.Min.X + f*w, b.Min.Y + f*h}, {b.Max.X - f*w, b.Min.Y + f*h}, {b.Min.X + f*w, b.Max.Y - f*h}, {b.Max.X - f*w, b.Max.Y - f*h}}
+			n := rapid.IntRange(1, 4).Draw(t, "ncorners")
+			for i := 0; i < n; i++ {
+				cpt := corners[rapid.IntRange(0, 3).Draw(t, "corner")]
+				m.apply(step{Op: "set", ID: m.newID(), Obj: &objSpec{[]string{"POINT", fs(cpt[1]), fs(cpt[0])}}})
+			}
+			if rapid.Bool().Draw(t, "straddle") {
+				m.apply(step{Op: "set", ID: m.newID(), Obj: &objSpec{[]string{"BOUNDS", fs(b.Min.Y - f*h), fs(b.Min.X - f*w), fs(b.Min.Y + f*h), fs(b.Min.X + f*w)}}})
+			}
+			// something that does match, next to the centre
+			m.apply(step{Op: "set", ID: m.newID(), Obj: &objSpec{[]string{"POINT", fs(y), fs(x)}}})
+			a := areaSpec{Args: []string{"CIRCLE", fs(y), fs(x), fs(r)}}
+			if rapid.IntRange(0, 2).Draw(t, "clipit") == 0 {
+				a.Clip = [][]string{{"BOUNDS", fs(y), fs(x), fs(b.Max.Y), fs(b.Max.X)}}
+			}
+			m.apply(step{Op: "query", Pred: predOf(t), Sparse: rapid.IntRange(1, 5).Draw(t, "sparse"), Area: &a})
+			m.apply(step{Op: "query", Pred: predOf(t), Sparse: 0, Area: &a})
+		},
 	}
 	rt.Repeat(actions)
 	// every history ends with a fixed number of queries on its final state
